@@ -40,32 +40,20 @@ Theorem C20_bykey_operations_layout_independent :
     snd (hm_remove uid_eqb k m) = snd (hm_remove uid_eqb k m') /\
     Permutation (fst (hm_remove uid_eqb k m)) (fst (hm_remove uid_eqb k m')) /\
     (forall x s s', Permutation s s' -> hs_mem x s = hs_mem x s').
-Proof.
-  intros k m m' ND P.
-  destruct (hm_remove_perm uid_eqb uid_eqb_eq k m m' ND P) as [H1 [H2 _]].
-  split; [exact (hm_get_perm uid_eqb uid_eqb_eq k m m' ND P)|].
-  split; [exact H1|]. split; [exact H2|]. exact hs_mem_perm.
-Qed.
+Proof. exact bykey_operations_layout_independent. Qed.
 
 (* ------------------------------------------------------------------------------------------ *)
 (* Rejected inputs: the full statement "the reported error does not depend on the order" is FALSE
    of the faithful model (defect D13).  Witness: two dangling register refs; identity order reports
    ref A / target X1, reversed order reports ref B / target X2. *)
-Definition d13_witness : device :=
-  [ {| o_depth := 0; o_name := "A"; o_cfg := ""; o_kind := ORef KRegister "X1" None |};
-    {| o_depth := 0; o_name := "B"; o_cfg := ""; o_kind := ORef KRegister "X2" None |} ].
-
+(* witness: DetermProofs.d13_witness = [ref A = register X1; ref B = register X2], orders_id / orders_rev *)
 Theorem C20_error_order_refuted :
   exists (d : device) (o1 o2 : orders),
     orders_ok o1 /\ orders_ok o2 /\
     List.length (candidate_errors d) = 2%nat /\
     hash_passes (fun _ v => Some v) o1 d = Reject (ERefUnknown KRegister "A" "X1") /\
     hash_passes (fun _ v => Some v) o2 d = Reject (ERefUnknown KRegister "B" "X2").
-Proof.
-  exists d13_witness, orders_id, orders_rev.
-  split; [exact orders_id_ok|]. split; [exact orders_rev_ok|].
-  vm_compute. repeat split.
-Qed.
+Proof. exact error_order_refuted. Qed.
 
 (* ... and this is not an accident of the witness: WHENEVER the first failing kind has two or more
    dangling entries, two admissible orders (identity, reversed) report different errors. *)
@@ -75,10 +63,7 @@ Theorem C20_error_order_dependent_when_several :
     (2 <= List.length (candidate_errors d))%nat ->
     orders_ok orders_id /\ orders_ok orders_rev /\
     hash_passes conv orders_id d <> hash_passes conv orders_rev d.
-Proof.
-  intros conv d A L. split; [exact orders_id_ok|]. split; [exact orders_rev_ok|].
-  exact (error_order_dependent_when_several conv d A L).
-Qed.
+Proof. exact error_order_dependent_when_several_ok. Qed.
 
 (* Strongest true statement, part 1: if the first failing kind (block refs, then register refs, then
    command refs — the order of the three loops) has at most one dangling entry, the outcome —
@@ -121,7 +106,7 @@ Theorem C20_cli_status :
                exit_status (r_stop r) <> 0%Z) /\
     (library_output_for fs lib (ci_path i) = None \/ chosen_sink creatable i = None ->
        r_writes r = [] /\ exit_status (r_stop r) <> 0%Z).
-Proof. intros T fs creatable lib pretty is_error H i. exact (cli_status fs creatable lib pretty is_error H i). Qed.
+Proof. exact @cli_status. Qed.
 
 (* ------------------------------------------------------------------------------------------ *)
 (* Dispatch.  (a) the extension table; (b) path resolution: absolute kept, relative joined to the
@@ -152,12 +137,7 @@ Theorem C20_dispatch_on_extension :
         chosen_sink creatable {| ci_path := resolve root path; ci_out := out |} = Some s ->
         r_writes (cli_run fs creatable lib pretty {| ci_path := resolve root path; ci_out := out |})
           = [(s, pretty t)])).
-Proof.
-  split; [exact parser_of_ext_spec|]. split; [exact resolve_absolute|]. split; [exact resolve_relative|].
-  intros T fs root lib. split; [exact (manifest_dispatch fs root lib)|].
-  split; [exact (macro_manifest_iff fs root lib)|]. split; [exact (macro_inline_iff fs root lib)|].
-  exact (macro_cli_agree fs root lib).
-Qed.
+Proof. exact dispatch_on_extension. Qed.
 
 (* ------------------------------------------------------------------------------------------ *)
 (* Non-vacuity *)
